@@ -47,11 +47,19 @@ Definition local_to_ts (oob : Z) (z : zone) (local : Z) (favor : option Z) : Z :
 
 (* dates are day numbers from DATE_EPOCH.
    date_to_ts(date) = (date - DATE_EPOCH).total_seconds();
-   date_to_ts(date, zone) = ts - zone.offset(ts * 1000).total_seconds()
+   date_to_ts(date, zone) (after fix 8feac94):
+       offset = zone.dt_offset(EPOCH + timedelta(seconds=ts))          # by LOCAL time, favor None
+       actual = zone.offset((ts - offset.total_seconds()) * 1000)
+       if actual != offset: offset = actual                            # skipped local midnight
+       return ts - offset.total_seconds()                              # = ts - actual in both cases
    ts_to_date(ts) = DATE_EPOCH + timedelta(seconds=ts): date + timedelta uses timedelta.days (floor) *)
 Definition date_to_ts (d : Z) : Z := d * TICKS_PER_DAY.
 Definition date_to_ts_zone (oob : Z) (d : Z) (z : zone) : Z :=
-  let ts := d * TICKS_PER_DAY in ts - zone_offset oob z ts.
+  let ts := d * TICKS_PER_DAY in
+  let offset := zone_dt_offset oob z ts None in
+  let actual := zone_offset oob z (ts - offset) in
+  let offset := if Z.eqb actual offset then offset else actual in
+  ts - offset.
 Definition ts_to_date (ts : Z) : Z := ts / TICKS_PER_DAY.
 (* dt.date() of an aware datetime *)
 Definition adt_date (d : adt) : Z := dt_local d / TICKS_PER_DAY.
@@ -87,3 +95,22 @@ Definition zone_ok (z : zone) : bool :=
       (andb (OU z k <=? TH z (k + 1))
             (U z k - W z (k + 2) <=? OU z (k + 1))))))
       (zrange (nZ z - 1)))).
+
+(* The date d exists in the zone: the local range of some interval k, [TH (k-1), OU k) (unbounded at both
+   ends of the zone), meets the day [d * DAY, (d+1) * DAY).  (False only where a zone skipped a whole day.) *)
+Definition date_exists (z : zone) (d : Z) : bool :=
+  let lo := d * TICKS_PER_DAY in
+  let hi := lo + TICKS_PER_DAY in
+  existsb (fun k => andb (orb (k =? 0) (TH z (k - 1) <? hi)) (orb (k =? nZ z) (lo <? OU z k)))
+          (zrange (nZ z + 1)).
+
+(* The per-zone check for dates.  For every transition k, with gap = W k - W (k+1) (how far local time jumps
+   forward there): the next interval is at least as long as the gap, and the gap is shorter than a day, or it is
+   exactly one day and starts at a local midnight (a whole calendar day is skipped). *)
+Definition zone_date_ok (z : zone) : bool :=
+  forallb (fun k =>
+    let gap := W z k - W z (k + 1) in
+    andb (orb (nZ z <=? k + 1) (U z k + gap <=? U z (k + 1)))
+         (orb (gap <? TICKS_PER_DAY)
+              (andb (gap =? TICKS_PER_DAY) (OU z k mod TICKS_PER_DAY =? 0))))
+    (zrange (nZ z)).
